@@ -49,6 +49,8 @@ class Runner:
         wd = os.path.join(self.c.scratch, "run%d" % self.n)
         import time
         t0 = time.time()
+        # the driver process needs seconds to start on a busy machine (ASan): never less than 180 s per process
+        per_item_timeout = max(per_item_timeout, 180.0 / max(1, min(chunk, len(items))))
         res, complete = batch.run_items([self.exe], items, wd, self.env, chunk=chunk,
                                         per_item_timeout=per_item_timeout)
         if os.environ.get("C12_DEBUG_PART"):
@@ -139,7 +141,7 @@ def token_alphabet(ops):
         if o in (b"//", b"/*"):
             continue
         add("o", o, "op-word" if o[:1].isalpha() else "op")
-    for s in ["/* c */", "/**/", "/* a * b */", "/* \" */", "/* ' */", "/* // */", "/***/", "/* a\nb */"]:
+    for s in ["/* c */", "/**/", "/* a * b */", "/* \" */", "/* ' */", "/* // */", "/***/", "/* a\nb */", "/*/ c */", "/*/*/"]:
         add("C", s, "block-comment")
     for s in ["// c", "//", "// \"a", "// /* x", "//c d"]:
         add("C", s, "line-comment")
@@ -149,7 +151,7 @@ def token_alphabet(ops):
 def sub_alphabet(T, ops):
     """~20 tokens containing every operator-prefix chain plus one token of every other kind."""
     want = [b"+", b"++", b"+=", b"-", b"->", b"->*", b"<", b"<<", b"<<=", b"<<<", b".", b"...", b"#", b"##",
-            b":", b"::", b"a", b"1", b".5", b'"a"', b"'a'", b"/* c */", b"// c", b"sizeof", b"sizeof...", b"="]
+            b":", b"::", b"a", b"1", b".5", b'"a"', b"'a'", b"/* c */", b"// c", b"sizeof", b"sizeof...", b"=", b"/", b"*"]
     by = {t[1]: t for t in T}
     return [by[w] for w in want if w in by]
 
@@ -463,16 +465,32 @@ def totality(c, R, tier, deadline):
     res = [None] * len(items)
     e_idx = [i for i in order if meta[i][1] == "E"]
     p_idx = [i for i in order if meta[i][1] == "P"]
-    for idxs, chunk, tmo in ((e_idx, 500, 2.0), (p_idx, 8, 30.0)):
-        rr = R.run([items[i] for i in idxs], chunk, per_item_timeout=tmo)
-        for i, r in zip(idxs, rr):
+    import time
+    rr = R.run([items[i] for i in e_idx], 500, per_item_timeout=2.0)
+    for i, r in zip(e_idx, rr):
+        res[i] = r
+    # groups in stages (generation order = simplest first); the wall-clock budget is checked between stages
+    not_run = 0
+    STAGE = 512
+    for lo in range(0, len(p_idx), STAGE):
+        part = p_idx[lo:lo + STAGE]
+        if time.time() > deadline:
+            not_run += len(part)
+            continue
+        rr = R.run([items[i] for i in part], 8, per_item_timeout=30.0)
+        for i, r in zip(part, rr):
             res[i] = r
     nstr = ntok = nerr = 0
     kinds = {}
     seqs = set()
     crashed_groups = []
+    groups_done = {}
     for i, r in enumerate(res):
         fi, kind, s = meta[i]
+        if r is None:
+            continue
+        if kind == "P":
+            groups_done[fi] = groups_done.get(fi, 0) + 1
         if kind == "E":
             nstr += 1
             crash, err = fbp.crash_of(r)
@@ -543,6 +561,8 @@ def totality(c, R, tier, deadline):
             c.harness_error("group %s crashed but no single string of it does (nondeterministic crash?)" % items[gi])
     return {"strings": nstr, "tokens": ntok, "strings_with_tokenizer_error": nerr, "token_kinds": kinds,
             "kind_sequences": len(seqs), "seqs": seqs, "crashed_groups": len(crashed_groups),
+            "groups_total": len(p_idx), "groups_not_run_budget": not_run, "complete": not_run == 0,
+            "groups_completed_per_family": [groups_done.get(fi, 0) for fi in range(len(fams))],
             "families": [{"name": f[0], "alphabet": f[1].decode("latin-1"), "max_symbols": f[2], "prefix": f[3].decode("latin-1")} for f in fams]}
 
 
@@ -605,7 +625,7 @@ def main():
     ops = get_ops(c, R)
     if c.args.replay:
         replay(c, R, ops, load_replay(c.args.replay))
-    deadline = c.t0 + c.budget(150, 1500)
+    deadline = c.t0 + c.budget(1800, 3600)   # safety net; an idle 16-core machine needs ~1 min (quick) / ~10 min (thorough)
 
     # ---- part 1: round trip ------------------------------------------------------------------------------
     rt = RoundTrip(c, R, ops)
@@ -659,7 +679,8 @@ def main():
         rule="bounded-exhaustive: every byte string up to the length bound over the listed alphabets (totality); every sequence "
              "of <=2 tokens over the token alphabet, <=3 over the sub-alphabet (round trip, spaced and adjacent)",
         samples=[repr(x[1])[:60] for x in (rt.T[0], rt.T[len(rt.T) // 2], rt.T[-1])] + ["\"abc", "'a", "u8R\"x(a"],
-        exhaustive=True,
+        exhaustive=tot["complete"],
+        budget_hit=not tot["complete"],
         roundtrip={"token_alphabet": len(rt.T), "tokens_passing_single_and_reprint": len(good),
                    "masked_tokens": rt.masked, "pair_alphabet": len(pal), "pairs": len(pairs), "triples": len(triples),
                    "adjacent_pairs": len(apairs), "adjacent_triples": len(atriples),
